@@ -420,6 +420,10 @@ def _eq(I, a, b) -> VBool:
         return int_cmp("==", _to_intlike(I, a), _to_intlike(I, b))
     if isinstance(a, VRef) and isinstance(b, VRef):
         return I.eq_ref(a, b)
+    for x, y in ((a, b), (b, a)):
+        if isinstance(x, VRef) and I.hobj(x).kind == "ext" and I.hobj(x).meta.get("tag") == "json":
+            from . import libmodels
+            return libmodels.eq_ext_value(I, x, y)
     if type(a) is type(b) and not isinstance(a, (VRef,)):
         return mkbool(a is b)
     return FALSE
